@@ -112,6 +112,70 @@ func Scenarios2() []History {
 	ops = append(ops, eb(1), Ev{Name: "Withdraw", Signer: "o1"})
 	add("both-promotions-truncate-once", smallParams(), map[string]int64{"c1": 200}, ops...)
 
+	// zero-height restart with a batch in flight, a paused and a killed context, earnings and a refunded
+	// binding; the new chain carries on: contexts are started again, run to their totals, earn, are withdrawn
+	ops = registry(map[string]int64{"p1": 5, "p2": 3})
+	ops = append(ops,
+		Ev{Name: "SetWithdrawAddr", Signer: "o1", Addr: "w1"},
+		Ev{Name: "Call", Signer: "c1", Svc: "s1", Provs: []string{"p1", "p2"}, Cap: 10, Timeout: 3, Rep: true, Freq: 3, Total: 2},
+		Ev{Name: "Call", Signer: "c2", Svc: "s1", Provs: []string{"p2"}, Cap: 10, Timeout: 2, Rep: true, Freq: 2, Total: 3},
+		Ev{Name: "Call", Signer: "c2", Svc: "s1", Provs: []string{"p1"}, Cap: 10, Timeout: 2, Rep: true, Freq: 4, Total: -1},
+		Ev{Name: "ModCreate", Signer: "c1", Svc: "s1", Provs: []string{"p1", "p2"}, Cap: 10, Timeout: 2, Rep: true, Freq: 2, Total: 2, Thr: 1},
+		eb(1),
+		Ev{Name: "Respond", Signer: "p1", Rid: rid(1, 1, 1, 0), Kind: "valid"},
+		Ev{Name: "Respond", Signer: "p2", Rid: rid(2, 1, 1, 0), Kind: "valid"},
+		Ev{Name: "Kill", Signer: "c2", ID: 3},
+		eb(1), // batches in flight: contexts 1, 3 (killed), 4
+		Ev{Name: "PrepZeroHeight"},
+		Ev{Name: "Genesis"},
+		Ev{Name: "Restart"},
+		Ev{Name: "Obs"},
+		Ev{Name: "Respond", Signer: "p2", Rid: rid(1, 1, 1, 1), Kind: "valid"}, // a request of the old chain
+		Ev{Name: "Withdraw", Signer: "o1"},
+		Ev{Name: "Start", Signer: "c1", ID: 1},
+		Ev{Name: "Start", Signer: "c2", ID: 2},
+		Ev{Name: "Start", Signer: "c2", ID: 3}, // was killed before the export
+		Ev{Name: "ModStart", Signer: "c1", ID: 4},
+		Ev{Name: "Call", Signer: "c1", Svc: "s1", Provs: []string{"p1"}, Cap: 10, Timeout: 1},
+		eb(1),
+		Ev{Name: "Respond", Signer: "p1", Rid: rid(1, 2, 1, 0), Kind: "valid"},
+		Ev{Name: "Respond", Signer: "p2", Rid: rid(2, 2, 1, 0), Kind: "valid"},
+		eb(1), eb(1), eb(1), eb(1), eb(1), eb(1), eb(1),
+		Ev{Name: "Withdraw", Signer: "o1"},
+		Ev{Name: "Disable", Signer: "o1", Svc: "s1", Prov: "p2"},
+		eb(6),
+		Ev{Name: "RefundDeposit", Signer: "o1", Svc: "s1", Prov: "p2"},
+		Ev{Name: "PrepZeroHeight"},
+		Ev{Name: "Genesis"},
+		Ev{Name: "Restart"},
+		Ev{Name: "Enable", Signer: "o1", Svc: "s1", Prov: "p2", Deposit: 40, DShape: "ok"},
+		eb(1),
+	)
+	add("zero-height-restart-and-on", smallParams(), map[string]int64{"c1": 200, "c2": 200}, ops...)
+
+	// D12: contexts that have had all their batches when the chain is exported (a one-shot and a repeated
+	// one with total 1, their batches in flight; a repeated one in its second batch of two) are started
+	// again on the new chain: they are finished there, not issued one batch more
+	ops = registry(map[string]int64{"p1": 5, "p2": 3})
+	ops = append(ops,
+		Ev{Name: "Call", Signer: "c1", Svc: "s1", Provs: []string{"p1"}, Cap: 10, Timeout: 3},
+		Ev{Name: "Call", Signer: "c1", Svc: "s1", Provs: []string{"p2"}, Cap: 10, Timeout: 3, Rep: true, Freq: 3, Total: 1},
+		Ev{Name: "Call", Signer: "c2", Svc: "s1", Provs: []string{"p1", "p2"}, Cap: 10, Timeout: 1, Rep: true, Freq: 1, Total: 2},
+		Ev{Name: "Call", Signer: "c2", Svc: "s1", Provs: []string{"p1"}, Cap: 10, Timeout: 2, Rep: true, Freq: 2, Total: 3},
+		eb(1), eb(1),
+		Ev{Name: "PrepZeroHeight"},
+		Ev{Name: "Genesis"},
+		Ev{Name: "Restart"},
+		Ev{Name: "Start", Signer: "c1", ID: 1},
+		Ev{Name: "Start", Signer: "c1", ID: 2},
+		Ev{Name: "Start", Signer: "c2", ID: 3},
+		Ev{Name: "Start", Signer: "c2", ID: 4},
+		eb(1),
+		Ev{Name: "Obs"},
+		eb(1), eb(1), eb(1), eb(1), eb(1),
+	)
+	add("D12-restart-with-batches-used-up", smallParams(), map[string]int64{"c1": 200, "c2": 200}, ops...)
+
 	return hs
 }
 
